@@ -36,4 +36,26 @@ def run_alias(ctx):
                     exhaustive_name="aliasing programs source -> X -> copy_ for every operation X of the op tables x 4 source kinds x 3 argument variants x {copy into the source, copy into X's result} x 2 source dtypes")
 
 
-SUBCHECKS = {"program": {"run": run, "execute": exec_program}, "alias": {"run": run_alias, "execute": exec_program}}
+def run_contract(ctx):
+    """complete enumeration of the 2-step programs  source -> contraction  over the source kinds (per-tensor, per-axis along the
+    first / the last axis; ranks 2 and 3; every 8-bit qtype) x every contraction of the op tables x every partner kind"""
+    from vlib.core import enumerate_cases
+
+    cases = []
+    for rank, shape in ((2, [3, 4]), (3, [2, 3, 4]), (2, [4, 4]), (3, [2, 4, 4])):
+        for q in range(3):
+            for kind, b in (("src_qa", q), ("src_qw", q), ("src_qw", q + 3)):
+                src = {"op": kind, "a": (q + rank) % 3, "b": b, "c": 0, "shape": shape, "seed": 11 + q}
+                for opname in ("mm", "matmul2", "bmm", "matmul", "linear", "linear_nobias", "linear_nd"):
+                    if (opname == "bmm") != (rank == 3) and opname in ("bmm", "mm", "matmul2", "linear", "linear_nobias"):
+                        continue
+                    for a in range(36):
+                        for b2 in (0, 3):
+                            for c in range(4):
+                                cases.append({"steps": [src, {"op": opname, "s": [0, 1, 2], "a": a, "b": b2, "c": c}]})
+    enumerate_cases(ctx, cases[ctx.shard :: ctx.nshards], exec_program,
+                    exhaustive_name="contraction programs source -> {mm, matmul, bmm, linear, ...} for 9 quantized source kinds (per-tensor / first axis / last axis x 3 qtypes) x ranks 2, 3 x square / non-square x 36 partner kinds x 2 output widths x 4 call variants")
+
+
+SUBCHECKS = {"program": {"run": run, "execute": exec_program}, "alias": {"run": run_alias, "execute": exec_program},
+             "contract": {"run": run_contract, "execute": exec_program}}
